@@ -4,6 +4,30 @@ NOTES = ("Every check rebuilds the harness from /repo's working tree (go build -
          "then runs the correspondence between the Lean model driver and the real code. See DESIGN.md.")
 NOT_APPLICABLE = {}
 CHECKS = {
+ "C04": {
+  "text": "On the control-flow skeleton REGENERATED from the Go sources (pkg/*.go, internal/validator/*.go) every run, Lean proves by kernel evaluation over every outcome of every external step that no validating entry point returns a report when decoding, JSON-LD flattening or indexing fails (data_failure_is_never_a_report, report_only_after_all_stages), and that the 21a97f4 shape (decode error swallowed) would. The skeleton is tied to the code by real runs of a malformed-data corpus through all entry points.",
+  "note": "Trusted: Lean kernel; the skeleton translator (extract_pipeline.go; unreadable statements become `opaque` and break theorem no_opaque); which documents encoding/json and json-gold reject is observed (differential), not proved.",
+  "technique": "Lean 4 kernel-evaluated theorems over a regenerated control-flow skeleton (all fault assignments) + fault-injection correspondence with the real entry points",
+  "ref": "DESIGN.md 7/C04",
+ },
+ "C09": {
+  "text": "Lean proves on the regenerated skeleton that Validate = ProcessProfile ; ValidateCompiled for every outcome of every external step (validate_is_compile_then_validateCompiled), that the pkg entry points are thin wrappers, and - for an engine whose Eval is a pure function of (compiled profile, document) - that any history of documents yields at each position the fresh result (history_independent). Tied by histories (repeats, failing and malformed documents) through one PreparedEvalQuery compared byte for byte with fresh validations.",
+  "note": "Partial: purity/freshness of OPA's PreparedEvalQuery.Eval is the hypothesis of the history theorem and is only observed, not proved. Trusted: Lean kernel, skeleton translator.",
+  "technique": "Lean 4 proof (induction on the history; kernel evaluation over the regenerated skeleton) + history correspondence against fresh validations",
+  "ref": "DESIGN.md 7/C09",
+ },
+ "C11": {
+  "text": "On the regenerated skeleton, for every validating entry point and every outcome (ok/error/panic) of every external step, Lean proves: events are a prefix of the stage order, well bracketed, no overlap; the channel is closed exactly once and last whenever the call returns; CompileProfile closes on error only; compile-then-validate closes once; the milestone fold (regenerated from pkg/milestones) yields one milestone per completed stage pairing each completion with an earlier start. Tied by real runs with a consumer goroutine for every failing stage x entry point.",
+  "note": "Trusted: Lean kernel; skeleton translator; Go channel semantics. Assumes all sends/closes go through dispatchEvent/CloseEventChan inside the translated functions (the correspondence observes the real channel).",
+  "technique": "Lean 4 kernel-evaluated theorems over all fault sequences of a regenerated skeleton + fault-injection correspondence with a real event channel",
+  "ref": "DESIGN.md 7/C11",
+ },
+ "C17": {
+  "text": "On the regenerated skeleton with three outcomes per external step Lean proves every entry point returns report-or-error whenever the steps outside the recover guard do not panic, that the guard converts parser/generator panics into errors, and that without it a panic escapes. The search side runs hostile hand-written inputs, mutations of all fixtures and raw bytes through all five entry points under recover() with a timeout.",
+  "note": "Partial: panic-freedom and termination inside yaml.v3, json-gold, OPA, encoding/json and of the indexer/report builder are hypotheses of total_under_guard; they are only searched (fuzz), not proved. Stack exhaustion/OOM are outside the model.",
+  "technique": "Lean 4 kernel-evaluated theorems over a regenerated skeleton (ok/err/panic per step) + structured fuzzing as the search for a failing input",
+  "ref": "DESIGN.md 7/C17",
+ },
  "C01": {
   "text": "Lean theorem compile_correct: for every rule tree (and/or/not/if/then/else/nested/atLeast/atMost/exactly of any depth and width) and every environment in which each atom's negated twin is its complement, the failure-DNF produced by the transliterated dispatch/genAnd/genOr/expandBranches fires exactly where the formula is classically false; corollaries: operand order, flattening, double negation, De Morgan, contraposition, if/then/else as two implications, target selection (reported_iff), cardinality atoms classical on every graph (graphEnv_classical). Tied to the Go translator by whole-truth-table validations of random formulas through the real pkg.Validate, plus random-graph streams for nested/quantified rules and every atom kind.",
   "note": "Trusted: Lean kernel; the transliteration of the generator and of Negate(); OPA's evaluation of each per-constraint snippet (modelled by Atom.fails, tied by the atoms stream); yaml.v3; json-gold on flat documents. Hypotheses kept visible: Proper (no empty and/or body) and Classical (per-value atoms are complementary only on single-valued properties).",
